@@ -26,6 +26,7 @@ fn profile_for(id: &str, tier: Tier, ctx: &Ctx) -> SProfile {
         "C11" => {
             p.p_sequential = 15;
             p.p_parser_error = 15;
+            p.p_empty_brackets = 20;
         }
         "C12" => {
             p.p_retry = 55;
@@ -57,6 +58,7 @@ fn profile_for(id: &str, tier: Tier, ctx: &Ctx) -> SProfile {
             p.p_retry = 45;
             p.p_dup_names = 10;
             p.p_pathless = 25;
+            p.p_twin_feature = 12;
             p.p_parser_error = 12;
             p.p_hook_fail = 15;
             if ctx.is_known("C14/libtest/started-result-pairing/pathless-feature") || ctx.is_known("C14/json/feature-split/pathless-feature") {
@@ -195,7 +197,11 @@ fn run_c12(input: &Input, ctx: &Ctx, tier: Tier) -> CaseOut {
     let tree = gen_tree(&mut ta, &p);
     let mut tb = Tape::new(input.b.clone());
     let stream = linearise(&mut tb, &tree, true, true);
-    let replay: Vec<Ev> = stream.iter().filter(|e| matches!(decode(e).what, What::Step { .. } | What::HookFailed(..) | What::ParserError(_) | What::ScFinished)).step_by(2).take(12).cloned().collect();
+    let mut replay: Vec<Ev> = stream.iter().filter(|e| matches!(decode(e).what, What::Step { .. } | What::HookFailed(..) | What::ParserError(_) | What::ScFinished)).step_by(2).take(12).cloned().collect();
+    // a repeat wrapper with a custom filter may also replay run-level events, run-Finished included
+    if ta.chance(1, 2) {
+        replay.extend(stream.iter().filter(|e| matches!(decode(e).what, What::RunStarted | What::ParsingFinished(_) | What::RunFinished)).cloned());
+    }
     let own = own_steps_table(&tree);
     let out = c12::check(&stream, &replay, &|s| own.get(&s).copied().unwrap_or(1), with_repeat);
     let c = &out.recount;
